@@ -6,7 +6,7 @@
 tag=$1; n=$2; pid=$3
 WT=/tmp/seed-$tag; OUT=/tmp/seed-$tag-out/$n
 export GOFLAGS=-mod=mod GOPROXY=off GOSUMDB=off GOWORK=off GOTOOLCHAIN=local
-git -C $WT checkout -q -- . ; git -C $WT clean -fdq
+git -C $WT reset -q --hard; git -C $WT clean -fdq
 git -C $WT checkout -q --detach $(git -C /repo rev-parse HEAD)   # seeds were made at an older HEAD; /repo may have gained fix: commits
 democmd=$(python3 -c "import json;print(json.load(open('$OUT/meta.json')).get('demo_cmd',''))" 2>/dev/null)
 echo "demo_cmd: $democmd"
@@ -21,6 +21,6 @@ bd=$(grep -c . $OUT/build_confirm.log)
 r1=$(rundemo changed)
 ( cd /verif && VERIF_REPO=$WT ./check $pid --tier quick ) > $OUT/check.log 2>&1
 crc=$?
-git -C $WT checkout -q -- . ; git -C $WT clean -fdq
+git -C $WT reset -q --hard; git -C $WT clean -fdq
 echo "SEED $tag/$n prop=$pid demo_unchanged_rc=$r0 demo_changed_rc=$r1 baseline_FAIL_lines=$bl build_msgs=$bd check_rc=$crc"
 grep "VIOLATION\|KNOWN" $OUT/check.log | head -3; tail -2 $OUT/check.log
